@@ -9,9 +9,9 @@ MODEL_TARGETS = ['theories/Model/Reduce.vo']
 MODEL_NEEDS_IMPL = True
 SHARD = 60
 SIZES = {'quick': 150, 'thorough': 2500, 'search': 800}
-RULE = ('cases: 1-3 existing routes (tours of 0-4 activities) plus 0-2 free vehicles with individual costs/capacities, 2-4 candidate '
+RULE = ('cases: 1-3 existing routes (tours of 0-4 activities; one case in three: 4-7 short tours) plus 0-2 free vehicles with individual costs/capacities, 2-4 candidate '
         'single jobs, metric and non-metric matrices, waiting-heavy tours; goal [unassigned, tours, cost]. For each case the real '
-        'evaluate_all runs in rayon pools of 1,2,3,5,8 threads (3 repetitions each), the sequential fold and all two-chunk splits are '
+        'evaluate_all runs in rayon pools of 1,2,3,4,5,8 threads (3 repetitions each), the sequential fold and all two-chunk splits are '
         'computed with the real step/reducer, and every item is evaluated alone. non-trivial = distinct cases with >= 2 successful items '
         'of different cost. Every 19th case is a whole Solver run (op layouts): 12-20 unit-demand jobs, vehicles of capacity 2-3 (so the '
         'solution has 4+ tours and the decomposition search forms several groups of tours), 60-200 generations, solved under 3-4 of the layouts '
@@ -53,13 +53,15 @@ def generate(rng, tier, n):
         base = {x: w[x] for x in ('n', 'dur', 'dist')}
         routes = []
         jid = 1
-        for r in range(rng.range(1, 3)):
+        # one case in three has 4-7 (short) tours: more tours than threads in the small pools, and not a multiple of the pool size
+        many = rng.chance(1, 3)
+        for r in range(rng.range(4, 7) if many else rng.range(1, 3)):
             v = K.gen_world(rng)['veh']
             v['start'] = 0
             if v['end'] is not None:
                 v['end'] = rng.below(w['n'])
             ww = dict(base, veh=v)
-            tour = K.gen_tour(rng, ww, maxlen=4)
+            tour = K.gen_tour(rng, ww, maxlen=2 if many else 4)
             for a in tour:
                 a['job'] = jid
                 jid += 1
@@ -78,7 +80,14 @@ def generate(rng, tier, n):
         for q in range(rng.range(2, 4)):
             ww = dict(base, veh=(routes[0]['veh'] if routes else free[0]))
             jobs.append(K.gen_single(rng, ww, routes[0]['tour'] if routes else [], jid=90 + q, multi_alt=rng.chance(1, 4)))
-        c = dict(base, routes=routes, free=free, jobs=jobs, goal='unassigned+tours+cost', pools=[1, 2, 3, 5, 8], reps=3)
+        if many and len(routes) >= 3 and rng.chance(1, 2):
+            # only the LAST tour of the list can take the candidates (big static deliveries, one big vehicle): a reduction that loses
+            # the tail of the tour list returns a failure or a worse insertion
+            for j in jobs:
+                j['dem'] = [0, 0, rng.range(21, 30), 0]
+            routes[-1]['veh'] = dict(routes[-1]['veh'], cap=80)
+            free = []
+        c = dict(base, routes=routes, free=free, jobs=jobs, goal='unassigned+tours+cost', pools=[1, 2, 3, 4, 5, 8], reps=3)
         if rng.chance(1, 2):
             # all cost rates scaled by 2^-30 (exact in f64; the harness scales reported costs back): near-equal float costs, so a
             # comparison that tolerates small differences stops being a total order and the reduction becomes split-dependent
